@@ -564,14 +564,12 @@ def check_interp_on_impl(case, r):
     ref = InterpRef(case, nodes, gbs)
     ref.impl_nodes = impl_nodes if impl_nodes is not None else nodes
     if ref.singular:
+        # a non-unisolvent grid is outside the property; the sparse LU may or may not notice an exactly
+        # singular matrix in floating point (it can return huge finite numbers), so nothing is required of
+        # the implementation here.  When it does raise, the Coq model must find the grid singular too.
         if r['status'] == 'Ok':
-            x = [float.fromhex(h) for h in r['x']]
-            if all(math.isfinite(v) for v in x):
-                bad.append(('singular-accepted', 'a non-unisolvent node grid (singular collocation matrix) returned finite coefficients without an error'))
-        xs = None
-        if r['status'] == 'Ok' and all(math.isfinite(float.fromhex(h)) for h in r['x']):
-            xs = [fr(h) for h in r['x']]
-        return bad, ref, ('singular', xs, Fraction(0), Fraction(0))
+            return bad, ref, None
+        return bad, ref, ('singular', None, Fraction(0), Fraction(0))
     if r['status'] != 'Ok':
         bad.append(('raises-' + r['status'], 'valid interpolation problem raised %s: %s' % (r['status'], r.get('msg'))))
         return bad, ref, None
